@@ -704,7 +704,11 @@ func c02AllExported(c *Ctx, cp *copier, rule string) {
 			}
 			return ""
 		}}
-		g := pbx.pathCond(fv.Block(), call.Block())
+		from := fv.Block()
+		if e := loopBodyEntry(call.Block()); e != nil && (e == from || e.Dominates(from)) {
+			from = e // the whole loop body up to the descent, wherever the field operand is computed
+		}
+		g := pbx.pathCond(from, call.Block())
 		c.checkTable(rule, relName(s), call.Pos(), g, []string{"exported"}, nil, "field name is exported", func(e env) bool { return e.B["exported"] })
 	}
 	if n == 0 {
